@@ -100,6 +100,12 @@ pub open spec fn bruns_spec(b: Seq<u8>, w: bool, toks: Seq<&[u8]>, c: Seq<int>) 
     &&& forall|k: int| 0 <= k < toks.len() ==> #[trigger] run_tok_ok(bcs(b), w, c[k], c[k + 1])
 }
 
+/// tokenize_chars: token k is the byte range of the k-th char bstr sees
+pub open spec fn bchars_spec(b: Seq<u8>, toks: Seq<&[u8]>) -> bool {
+    &&& toks.len() == bchars(b).len()
+    &&& forall|k: int| 0 <= k < toks.len() ==> btok_is(b, #[trigger] toks[k], k, k + 1)
+}
+
 pub open spec fn bcat(toks: Seq<&[u8]>) -> Seq<u8> decreases toks.len() {
     if toks.len() == 0 { Seq::<u8>::empty() } else { bcat(toks.drop_last()) + toks.last()@ }
 }
@@ -301,8 +307,19 @@ pub proof fn lemma_tok_runs_str_bytes_agree(s: &str, w: bool, ts: Seq<&str>, c1:
 // B4. The code of /repo
 // ---------------------------------------------------------------------------------------------
 
-//@@ item src/text/abstraction.rs :: ^mod bytes_support :: ^impl DiffableStr for \[u8\] only=fn\s+tokenize_(lines|lines_and_newlines|words)\( rw=R0,R8,R13,R12,R11
+//@@ item src/text/abstraction.rs :: ^mod bytes_support :: ^impl DiffableStr for \[u8\] only=fn\s+(tokenize_(lines|lines_and_newlines|words|chars)|len|slice)\( rw=R0,R8,R13,R12,R11
     impl DiffableStr for [u8] {
+        /*@*/ /// the byte view of a byte string: the bytes
+        /*@*/ open spec fn bytes(&self) -> Seq<u8> { self@ }
+        /*@*/ /// the shape clauses of the four tokenizers (see blines_spec / bruns_spec / bchars_spec), over the chars bstr sees
+        /*@*/ open spec fn tok_shape(&self, kind: TokKind, toks: Seq<&[u8]>) -> bool {
+        /*@*/     match kind {
+        /*@*/         TokKind::Lines => exists|c: Seq<int>| blines_spec(self@, toks, c),
+        /*@*/         TokKind::LinesAndNewlines => exists|c: Seq<int>| bruns_spec(self@, false, toks, c),
+        /*@*/         TokKind::Words => exists|c: Seq<int>| bruns_spec(self@, true, toks, c),
+        /*@*/         TokKind::Chars => bchars_spec(self@, toks),
+        /*@*/     }
+        /*@*/ }
         fn tokenize_lines(&self) -> (res: Vec<&Self>)
         /*@*/     ensures
         /*@*/         // (P) non-empty tokens whose concatenation is the input, byte for byte
@@ -387,6 +404,9 @@ pub proof fn lemma_tok_runs_str_bytes_agree(s: &str, w: bool, ts: Seq<&str>, c1:
             /*@*/     assert(cut.last() == n);
             /*@*/     assert(blines_spec(b, lines@, cut));
             /*@*/     lemma_tokb_partition_concat(b, lines@, cut);
+            /*@*/     // the trait-level clauses (diffablestr.rs)
+            /*@*/     lemma_tokb_partition_bridge(self, lines@);
+            /*@*/     assert(Seq::new(lines@.len(), |i: int| <[u8] as DiffableStr>::bytes(lines@[i])) =~= u8_tok_bytes(lines@));
             /*@*/ }
             lines
         }
@@ -454,6 +474,9 @@ pub proof fn lemma_tok_runs_str_bytes_agree(s: &str, w: bool, ts: Seq<&str>, c1:
             /*@*/ proof {
             /*@*/     assert(bruns_spec(b, false, rv@, cut));
             /*@*/     lemma_tokb_partition_concat(b, rv@, cut);
+            /*@*/     // the trait-level clauses (diffablestr.rs)
+            /*@*/     lemma_tokb_partition_bridge(self, rv@);
+            /*@*/     assert(Seq::new(rv@.len(), |i: int| <[u8] as DiffableStr>::bytes(rv@[i])) =~= u8_tok_bytes(rv@));
             /*@*/ }
             rv
         }
@@ -521,17 +544,38 @@ pub proof fn lemma_tok_runs_str_bytes_agree(s: &str, w: bool, ts: Seq<&str>, c1:
             /*@*/ proof {
             /*@*/     assert(bruns_spec(b, true, rv@, cut));
             /*@*/     lemma_tokb_partition_concat(b, rv@, cut);
+            /*@*/     // the trait-level clauses (diffablestr.rs)
+            /*@*/     lemma_tokb_partition_bridge(self, rv@);
+            /*@*/     assert(Seq::new(rv@.len(), |i: int| <[u8] as DiffableStr>::bytes(rv@[i])) =~= u8_tok_bytes(rv@));
             /*@*/ }
             rv
         }
 
 
 
+        /*@*/ // ASSUMED contract (the trait-level clauses of diffablestr.rs with tok_shape(Chars, ..) = bchars_spec: one token per
+        /*@*/ // char bstr sees): the body - iterator `map(closure)` + `collect()` - is outside Verus' subset
+        /*@*/ // (probes/tok_tokenize_chars_map_collect.rs).  Bounded stand-in: replay mode C06.
+        /*@*/ #[verifier::external_body]
+        fn tokenize_chars(&self) -> (res: Vec<&Self>)
+        {
+            self.char_indices()
+                .map(move |(start, end, _)| &self[start..end])
+                .collect()
+        }
 
 
 
 
+        fn len(&self) -> (res: usize)
+        {
+            <[u8]>::len(self)
+        }
 
+        fn slice(&self, rng: Range<usize>) -> (res: &Self)
+        {
+            &self[rng]
+        }
 
     }
 //@@ end
